@@ -41,11 +41,12 @@ type vfC17Run struct {
 	base     *vfDialer
 	sess     *Session
 
-	mu     sync.Mutex
-	dials  []*vfC17DialRec
-	filter func(h *HostInfo) // optional hook called from the HostFilter
-	onDial func(ip string)   // optional hook called by the dialer before it connects (may park)
-	csc    *vfScope
+	mu       sync.Mutex
+	dials    []*vfC17DialRec
+	filter   func(h *HostInfo) // optional hook called from the HostFilter
+	onDial   func(ip string)   // optional hook called by the dialer before it connects (may park)
+	csc      *vfScope
+	closeErr int32 // != 0: every socket's Close() reports an error
 }
 
 type vfC17RunDialer struct{ run *vfC17Run }
@@ -82,7 +83,7 @@ func (d *vfC17RunDialer) DialHost(ctx context.Context, host *HostInfo) (*DialedH
 		r.tr.Emit("h_conn_closed", "obj", 0, "a", id)
 	}
 	r.tr.Emit("h_dial_ok", "obj", 0, "a", id)
-	return &DialedHost{Conn: c}, nil
+	return &DialedHost{Conn: &vfC17Conn{vfMemConn: c, failClose: &r.closeErr}}, nil
 }
 
 func (r *vfC17Run) openConns() []int {
@@ -343,7 +344,18 @@ func vfC17HangSig(dump string, s *Session) string {
 			return "event-debouncer-stop"
 		case strings.Contains(g, "controlConn).close"):
 			return "control-conn-close"
+		case strings.Contains(g, "hostConnPool).HandleError") && strings.Contains(g, "hostConnPool).Close"):
+			return "pool-close-reenters-HandleError"
 		case strings.Contains(g, "policyConnPool).Close"):
+			// waiting for a host pool's lock: who sits on it?
+			for _, f := range gs {
+				if strings.Contains(f, "hostConnPool).HandleError") && strings.Contains(f, "hostConnPool).connect") {
+					return "pool-close-blocked-by-connect-late-arrival-reentering-HandleError"
+				}
+				if strings.Contains(f, "hostConnPool).HandleError") && strings.Contains(f, "hostConnPool).Close") {
+					return "pool-close-blocked-by-Close-reentering-HandleError"
+				}
+			}
 			return "pool-close"
 		}
 		return "other"
@@ -420,7 +432,7 @@ func (r *vfC17Run) closeAndObserve(sched int, plan string, closers func()) vfC17
 			}
 		} else if r.sess.control != nil {
 			if ch := r.sess.control.getConn(); ch != nil && ch.conn != nil {
-				if mc, ok := ch.conn.conn.(*vfMemConn); ok && !mc.IsClosed() {
+				if mc := vfC17MemOf(ch.conn.conn); mc != nil && !mc.IsClosed() {
 					res.leak = "control-conn-installed-after-close"
 				}
 			}
@@ -459,6 +471,11 @@ func vfC17RandomRun(seed int64, sched int) (res vfC17SessResult, err error) {
 	}
 	s := r.sess
 	var plan []string
+	if rng.Intn(2) == 0 {
+		// every socket of this run reports an error from Close() (closing re-enters the error handlers)
+		atomic.StoreInt32(&r.closeErr, 1)
+		plan = append(plan, "sockets-fail-close")
+	}
 	var wg sync.WaitGroup
 	var stop int32
 	nops := 4 + rng.Intn(8)
@@ -576,7 +593,7 @@ func vfC17RandomRun(seed int64, sched int) (res vfC17SessResult, err error) {
 		if rng.Intn(2) == 0 {
 			if ch := s.control.getConn(); ch != nil && ch.conn != nil {
 				for _, d := range r.liveNodeConns() {
-					if net.Conn(d.mem) == ch.conn.conn {
+					if d.mem == vfC17MemOf(ch.conn.conn) {
 						plan = append(plan, "kill-control")
 						d.nc.Close()
 					}
@@ -1004,8 +1021,8 @@ func vfC17ScenFlusherSelfWait() vfC17ScenResult {
 	}
 	s := r.sess
 	ch := s.control.getConn()
-	mc, ok := ch.conn.conn.(*vfMemConn)
-	if !ok {
+	mc := vfC17MemOf(ch.conn.conn)
+	if mc == nil {
 		res.Err = "control connection is not an in-memory connection"
 		return res
 	}
@@ -1101,7 +1118,7 @@ func vfC17ScenCloseBusyRefresherPending() vfC17ScenResult {
 	ch := s.control.getConn()
 	killed := false
 	for _, d := range r.liveNodeConns() {
-		if ch != nil && ch.conn != nil && net.Conn(d.mem) == ch.conn.conn {
+		if ch != nil && ch.conn != nil && d.mem == vfC17MemOf(ch.conn.conn) {
 			d.nc.Close()
 			killed = true
 		}
@@ -1257,7 +1274,7 @@ func vfC17ScenReconnectRacingClose() vfC17ScenResult {
 	ch := s.control.getConn()
 	killed := false
 	for _, d := range r.liveNodeConns() {
-		if ch != nil && ch.conn != nil && net.Conn(d.mem) == ch.conn.conn {
+		if ch != nil && ch.conn != nil && d.mem == vfC17MemOf(ch.conn.conn) {
 			d.nc.Close()
 			killed = true
 		}
@@ -1319,6 +1336,69 @@ func vfC17ScenReconnectRacingClose() vfC17ScenResult {
 	return res
 }
 
+// Sockets whose Close() reports an error: Conn.Close hands the error to the connection's error handler,
+// so closing a pooled connection re-enters hostConnPool.HandleError.  A host is removed (its pool is
+// closed by policyConnPool.removeHost), Pick/Size of that pool must still return, then Session.Close.
+func vfC17ScenFailingSocketClose() vfC17ScenResult {
+	res := vfC17ScenResult{Name: "sockets-fail-close"}
+	r, err := vfC17NewRun(1, 2, 2, nil)
+	if err != nil {
+		res.Err = err.Error()
+		return res
+	}
+	atomic.StoreInt32(&r.closeErr, 1)
+	s := r.sess
+	var h2 *HostInfo
+	for _, h := range s.ring.allHosts() {
+		if h.ConnectAddress().String() == "10.0.0.2" {
+			h2 = h
+		}
+	}
+	var p2 *hostConnPool
+	if h2 != nil {
+		vfC17Poll(2*time.Second, func() bool { p, ok := s.pool.getPool(h2); p2 = p; return ok && p.Size() == 2 })
+	}
+	if p2 == nil {
+		res.Err = "no pool for the second host"
+		s.Close()
+		return res
+	}
+	// host 2 leaves the ring: refresh -> removeHost -> go pool.Close()
+	r.cl.Set([]vfHostDesc{vfDesc(1)})
+	okr, _ := vfWithin(vfC17CloseWatchdog, func() { s.refreshRing() })
+	if !okr {
+		res.Err = "refreshRing did not return"
+		return res
+	}
+	okp, dump := vfWithin(vfC17CloseWatchdog, func() {
+		vfC17Poll(2*time.Second, func() bool { p2.mu.RLock(); c := p2.closed; p2.mu.RUnlock(); return c })
+		p2.Size()
+		p2.Pick()
+	})
+	if !okp {
+		res.Viol = "pool-lock-deadlock:" + vfC17LockSig(dump, p2)
+		res.What = "after a host was removed, Size/Pick of its pool never returned: a pool method waits for pool.mu while holding it " +
+			"(closing a connection whose socket Close() reports an error re-enters hostConnPool.HandleError)"
+		res.Obs = "Size/Pick of the removed host's pool blocked"
+		return res
+	}
+	okc, dump2 := vfWithin(vfC17CloseWatchdog, s.Close)
+	if !okc {
+		res.Viol = "session-close-hang:" + vfC17HangSig(dump2, s)
+		res.What = "Session.Close did not return with sockets whose Close() reports an error"
+		res.Obs = "Close hung"
+		return res
+	}
+	vfC17Poll(2*time.Second, func() bool { return len(r.openConns()) == 0 })
+	open := r.openConns()
+	res.Obs = fmt.Sprintf("host pool closed, Size/Pick returned, Close returned; open connections: %v (dialed %d)", open, len(r.dials))
+	if len(open) > 0 {
+		res.Viol = "conn-leak-after-close:sockets-fail-close"
+		res.What = "connections stayed open after Session.Close when the sockets' Close() reports an error"
+	}
+	return res
+}
+
 func TestVfC17Scenarios(t *testing.T) {
 	outPath := os.Getenv("VF_TRACES")
 	if outPath == "" {
@@ -1330,7 +1410,7 @@ func TestVfC17Scenarios(t *testing.T) {
 	}
 	defer out.Close()
 	fs := []func() vfC17ScenResult{vfC17ScenHeartbeatAfterClose, vfC17ScenEventStopTwice, vfC17ScenRefreshAfterStop,
-		vfC17ScenLatePool, vfC17ScenFlusherSelfWait, vfC17ScenCloseAfterRefresh, vfC17ScenCloseBusyRefresherPending, vfC17ScenReconnectRacingClose}
+		vfC17ScenLatePool, vfC17ScenFlusherSelfWait, vfC17ScenCloseAfterRefresh, vfC17ScenCloseBusyRefresherPending, vfC17ScenReconnectRacingClose, vfC17ScenFailingSocketClose}
 	results := make([]vfC17ScenResult, len(fs))
 	var wg sync.WaitGroup
 	for i, f := range fs {
